@@ -394,6 +394,18 @@ pub fn seed_ops(name: &str) -> Vec<PuOp> {
             v
         }
         "S5" => base(cap_fees()),
+        // S2 / S3 with every pool created with its denoms (and decimals) listed in the opposite order
+        "S2r" | "S3r" => base(if name == "S2r" { std_fees() } else { zero_fees() })
+            .into_iter()
+            .map(|op| match op {
+                PuOp::CreatePool { u, mut denoms, mut decimals, fees, amp, id, funds } => {
+                    denoms.reverse();
+                    decimals.reverse();
+                    PuOp::CreatePool { u, denoms, decimals, fees, amp, id, funds }
+                }
+                o => o,
+            })
+            .collect(),
         "S6" => {
             // a four-asset stableswap pool next to a constant-product pool sharing two of its denoms
             let mut v = vec![mk_pool("cp", &["uom", "uusd"], &[6, 6], std_fees(), None), prov(OWNER, "o.cp", &[("uom", 10 * E6), ("uusd", 20 * E6)])];
